@@ -507,3 +507,20 @@ func Main(m *testing.M, property string) {
 	flush()
 	os.Exit(code)
 }
+
+// InFlight writes the case about to be decided to ./inflight.json (the shard's
+// private working directory) in replay-file format; if the process then dies
+// (fatal error: out of memory, stack overflow, kill by the watchdog) the driver
+// turns that file into the replay file of a violation. Call InFlightDone after
+// the case returned.
+func InFlight(test string, c interface{}) {
+	cb, err := json.Marshal(c)
+	if err != nil {
+		return
+	}
+	rb, _ := json.Marshal(replayFile{Property: prop(), Test: test, Error: "process died while deciding this case", Case: cb})
+	_ = os.WriteFile("inflight.json", rb, 0o644)
+}
+
+// InFlightDone removes the in-flight marker.
+func InFlightDone() { _ = os.Remove("inflight.json") }
